@@ -145,3 +145,42 @@ def build_rust():
 
 
 HEADLESS = re.compile(r'^S\[(.*?)\] M\[(.*?)\] C\[(.*?)\]$')
+
+
+def regen_gen():
+    """regenerate coq/Gen/PySerial.v from the CURRENT instruction.py / serializing_interpreter.py /
+    deserialize.py with translators/py_serial.py (fail closed) -> (ok, message)"""
+    import sys
+    tdir = os.path.join(C.VERIF, 'translators')
+    if tdir not in sys.path:
+        sys.path.insert(0, tdir)
+    try:
+        import importlib
+        import py_serial
+        importlib.reload(py_serial)
+        text = py_serial.generate(C.REPO)
+        C.write_if_changed(os.path.join(C.COQ, 'Gen', 'PySerial.v'), text)
+        return True, ''
+    except SystemExit as e:
+        return False, str(e)
+    except Exception as e:  # noqa: BLE001
+        return False, f'py_serial: {e!r}'
+
+
+def proof_stage_with_translation(R):
+    """regenerate, then the usual proof stage; a translator that fails closed breaks the proof stage"""
+    ok_tr, msg = regen_gen()
+    P = R.proof_stage()
+    if not ok_tr:
+        P['ok'] = False
+        P['log'] = 'translator failed closed: ' + msg
+        P['discharged'] = 0      # nothing is proved about the current source
+    return P
+
+
+TRANSLATOR_TRUST = ('translators/py_serial.py (Python-ast, fail closed): instruction.py enum, every method of '
+                    'SerializingInterpreter and the dispatch loop of deserialize_instructions are translated statement by '
+                    'statement into coq/Gen/PySerial.v on every run; coq/Interp/SerialLib.v gives the meaning of the Python '
+                    'primitives it maps onto (bytes([...]) range check, dict, len/sum/reversed/keys, list.index, stack '
+                    'peeks, zip strict, dict(...)); the three byte readers and the loop head are compared with a reference '
+                    'AST (alpha-normalised) instead of being translated')
